@@ -27,18 +27,60 @@ MISLOADED: list = []   # signatures the visitor did not store as declared (fille
 
 
 # ---- extraction of the kind sets from the working tree --------------------------------------------------
-def kind_sets() -> dict:
-    """The frozensets of _griffe.diff, as TLA+ set literals over the spec's kind abbreviations."""
-    from _griffe import diff as D  # noqa: PLC0415
+_KIND_SETS: dict = {}
+KIND_NOTES: list = []
 
-    out = {}
-    for const, attr in (("POSITIONAL", "_POSITIONAL"), ("POSKWONLY", "_POSITIONAL_KEYWORD_ONLY"), ("VARIADIC", "_VARIADIC")):
-        try:
-            fs = getattr(D, attr)
-            out[const] = "{" + ", ".join(sorted('"%s"' % ABBR[k.value] for k in fs)) + "}"
-        except Exception as exc:  # noqa: BLE001
-            die(f"C10: cannot extract _griffe.diff.{attr} ({exc!r}); the model's kind sets cannot be bound to the code")
+
+def _probe(griffe, old_params: str, new_params: str) -> set:
+    """{(KIND, parameter)} the public find_breaking_changes yields for def f(old) -> def f(new)."""
+    mods = [griffe.visit("m", filepath=Path("m.py"), code=f"d1 = 1\nd2 = 2\n\n\ndef f({p}):\n    pass\n") for p in (old_params, new_params)]
+    out = set()
+    for b in griffe.find_breaking_changes(*mods):
+        kind = b.kind.name.replace("PARAMETER_", "")
+        par = b.new_value if kind == "ADDED_REQUIRED" else b.old_value
+        out.add((kind, getattr(par, "name", "?")))
     return out
+
+
+def kind_sets() -> dict:
+    """The effective kind sets of the signature rules, as TLA+ set literals over the spec's kind abbreviations.
+
+    Determined through PUBLIC behaviour only (find_breaking_changes on tiny signature pairs), so that a
+    refactoring of the private constants of _griffe.diff cannot break the check:
+      POSITIONAL: kinds k for which a parameter of kind k whose index changes (0 -> 1) is reported MOVED;
+      POSKWONLY : kinds k for which positional-or-keyword -> k is reported CHANGED_KIND although the other kind
+                  rules are neutralised (variadic targets probed with the complementary variadic present);
+      VARIADIC  : kinds k exempt from the default rule (non-variadic: a=d1 -> a=d2 not reported) or, for kinds
+                  that cannot carry a default, reported CHANGED_KIND when turned into a regular parameter.
+    The private frozensets, when they still exist under their old names, are only compared (note)."""
+    if _KIND_SETS:
+        return dict(_KIND_SETS)
+    import griffe  # noqa: PLC0415
+
+    try:
+        shape = {"po": ("a, /", "b, a, /"), "pk": ("a", "b, a"), "vp": ("*a", "b, *a"), "ko": ("*, a", "*, b, a"), "vk": ("**a", "b, **a")}
+        positional = {k for k, (o, n) in shape.items() if ("MOVED", "a") in _probe(griffe, o, n)}
+        to_kind = {"po": "a, /", "ko": "*, a", "vp": "*a, **b", "vk": "*b, **a"}
+        poskwonly = {k for k, n in to_kind.items() if ("CHANGED_KIND", "a") in _probe(griffe, "a", n)}
+        dflt = {"po": ("a=d1, /", "a=d2, /"), "pk": ("a=d1", "a=d2"), "ko": ("*, a=d1", "*, a=d2")}
+        variadic = {k for k, (o, n) in dflt.items() if ("CHANGED_DEFAULT", "a") not in _probe(griffe, o, n)}
+        variadic |= {k for k, o in (("vp", "*a"), ("vk", "**a")) if ("CHANGED_KIND", "a") in _probe(griffe, o, "a=d1")}
+    except Exception as exc:  # noqa: BLE001
+        die(f"C10: probing find_breaking_changes for the effective kind sets failed ({exc!r})")
+    probed = {"POSITIONAL": positional, "POSKWONLY": poskwonly, "VARIADIC": variadic}
+    try:   # optional cross-check against the private constants
+        from _griffe import diff as D  # noqa: PLC0415
+
+        for const, attr in (("POSITIONAL", "_POSITIONAL"), ("POSKWONLY", "_POSITIONAL_KEYWORD_ONLY"), ("VARIADIC", "_VARIADIC")):
+            if hasattr(D, attr):
+                private = {ABBR[k.value] for k in getattr(D, attr)}
+                if private != probed[const]:
+                    KIND_NOTES.append(f"_griffe.diff.{attr} = {sorted(private)} but the probed effective set {const} is {sorted(probed[const])} (the probed one is used)")
+    except Exception:  # noqa: BLE001, S110
+        pass
+    for const, st in probed.items():
+        _KIND_SETS[const] = "{" + ", ".join(sorted('"%s"' % k for k in st)) + "}"
+    return dict(_KIND_SETS)
 
 
 # ---- concretisation --------------------------------------------------------------------------------------
